@@ -4,6 +4,8 @@
 From Coq Require Import List NArith Bool.
 Import ListNotations.
 Require Import Util SigCore SigLemmas SigInv SigSafe SigSpec SigValues.
+From Coq Require Import String.
+Require Import GenTypes gen.Tables.
 Local Open Scope N_scope.
 
 Theorem C18_forwarder_emits_target_with_same_argument : S_forwarder_emits.
@@ -21,3 +23,13 @@ Print Assumptions C18_forwarder_dies_with_signal.
 Theorem C18_copy_is_distinct_trackable : S_copy_is_distinct_trackable.
 Proof. exact copy_is_distinct_trackable. Qed.
 Print Assumptions C18_copy_is_distinct_trackable.
+
+(* SigCore.sig_destroy destroys a trackable_signal "trackable base first, then the handle": that is the
+   reverse of the order in which the class lists its bases.  A trackable_signal whose slots were destroyed
+   before its forwarders are invalidated would let a dying functor reach the half-destroyed signal. *)
+Theorem C18_gen_trackable_signal_destroys_trackable_base_first :
+  existsb (fun '(c, bs) => String.eqb c "trackable_signal_with_accumulator" &&
+                           match bs with [b1; b2] => String.eqb b1 "signal_base" && String.eqb b2 "trackable" | _ => false end)
+          gen_bases = true.
+Proof. vm_compute. reflexivity. Qed.
+Print Assumptions C18_gen_trackable_signal_destroys_trackable_base_first.
